@@ -498,10 +498,10 @@ var _ = time.Now
 func init() {
 	harness.Children["c20temp"] = tempChild
 	harness.Register(&harness.Check{
-		ID:    "C20",
-		Level: "exploration",
-		Race:  true,
-		Rule: "all workers are built with -race (GORACE halt_on_error=0, reports collected from the log files and de-duplicated by the functions on top of both stacks; any report is a violation). Workloads, each compared with its sequential twin: codec (8-32 goroutines x Write / WriteUncompressed / Copy / String on one profile, plus a merged profile and its compaction serialized at the same time; bytes must equal the sequential ones), web (4-11 clients mixing /top /peek /flamegraph /source /disasm /download / with /saveconfig and /deleteconfig against one server while 2 writers flip an option through SetVariableDefault; every response must equal a sequential response for one of the option values written, Config menu excluded), fetch (2-300 sources fetched in parallel through the gated fetcher with a shared Binutils object tool; two completion orders must agree), temp (32 goroutines x 4 and 6 processes x 12 temporary files in one directory: names distinct, contents intact), tools (6-11 goroutines x 8 SourceLine calls on one object file behind an interposed symbolizer that echoes its question, while SetTools / SetFastSymbolization / Open race). Every workload records call/return stamps from one clock and reports the number of really overlapping operation pairs. non-trivial = every case; distinct = case",
+		ID:          "C20",
+		Level:       "exploration",
+		Race:        true,
+		Rule:        "all workers are built with -race (GORACE halt_on_error=0, reports collected from the log files and de-duplicated by the functions on top of both stacks; any report is a violation). Workloads, each compared with its sequential twin: codec (8-32 goroutines x Write / WriteUncompressed / Copy / String on one profile, plus a merged profile and its compaction serialized at the same time; bytes must equal the sequential ones), web (4-11 clients mixing /top /peek /flamegraph /source /disasm /download / with /saveconfig and /deleteconfig against one server while 2 writers flip an option through SetVariableDefault; every response must equal a sequential response for one of the option values written, Config menu excluded), fetch (2-300 sources fetched in parallel through the gated fetcher with a shared Binutils object tool; two completion orders must agree), temp (32 goroutines x 4 and 6 processes x 12 temporary files in one directory: names distinct, contents intact), tools (6-11 goroutines x 8 SourceLine calls on one object file behind an interposed symbolizer that echoes its question, while SetTools / SetFastSymbolization / Open race). Every workload records call/return stamps from one clock and reports the number of really overlapping operation pairs. non-trivial = every case; distinct = case",
 		Assumptions: []string{"the race detector only sees accesses that happen in these runs", "sharing one fileNM object between goroutines is not something pprof does and is not exercised"},
 		Parts: []harness.Part{
 			{Name: "codec", Quick: 60, Thor: 3000, Run: runCodec},
